@@ -83,7 +83,11 @@ func runC03Errors(c *Ctx) {
 			if used {
 				fres := f.Signature.Results()
 				canPropagate := fres.Len() > 0 && isErrorType(fres.At(fres.Len()-1).Type())
-				if why := testedButIgnored(call, res.Len()); why != "" && canPropagate {
+				why := testedButIgnored(call, res.Len())
+				if why == "" {
+					why = droppedOnNonNilPath(call, res.Len())
+				}
+				if why != "" && canPropagate {
 					c.Bad(call.Pos(), fn, construct, "the error is only compared with nil and then dropped: "+why+" — a failed validation/parse step is silently treated as success")
 					return
 				}
@@ -183,3 +187,85 @@ func testedButIgnored(call *ssa.Call, nres int) string {
 	return ""
 }
 
+
+// droppedOnNonNilPath: some `err != nil` test of the call's error sends the non-nil case down a path on which the
+// error is never used again (returned, passed on, stored, merged) — e.g. `if err == nil { return err }`.
+func droppedOnNonNilPath(call *ssa.Call, nres int) string {
+	var errVals []ssa.Value
+	if nres == 1 {
+		errVals = append(errVals, call)
+	} else {
+		for _, r := range *call.Referrers() {
+			if ex, ok := r.(*ssa.Extract); ok && ex.Index == nres-1 {
+				errVals = append(errVals, ex)
+			}
+		}
+	}
+	for _, e := range errVals {
+		var uses []ssa.Instruction
+		var cmps []*ssa.BinOp
+		for _, r := range *e.Referrers() {
+			switch x := r.(type) {
+			case *ssa.DebugRef:
+			case *ssa.BinOp:
+				if (x.Op == token.EQL || x.Op == token.NEQ) && (isNilConst(x.X) || isNilConst(x.Y)) {
+					cmps = append(cmps, x)
+				} else {
+					uses = append(uses, x)
+				}
+			default:
+				uses = append(uses, r)
+			}
+		}
+		if len(uses) == 0 {
+			continue // testedButIgnored's case
+		}
+		for _, cmp := range cmps {
+			for _, r := range *cmp.Referrers() {
+				ifi, ok := r.(*ssa.If)
+				if !ok {
+					continue
+				}
+				b := ifi.Block()
+				t := b.Succs[0]
+				if cmp.Op == token.EQL {
+					t = b.Succs[1]
+				}
+				// blocks reachable from the non-nil successor
+				reach := map[*ssa.BasicBlock]bool{}
+				var walk func(x *ssa.BasicBlock)
+				walk = func(x *ssa.BasicBlock) {
+					if reach[x] {
+						return
+					}
+					reach[x] = true
+					for _, s := range x.Succs {
+						walk(s)
+					}
+				}
+				walk(t)
+				used := false
+				for _, u := range uses {
+					ub := u.Block()
+					if phi, ok := u.(*ssa.Phi); ok {
+						// the phi uses e on the edges that carry it
+						for k, ed := range phi.Edges {
+							if ed == e && (reach[ub.Preds[k]] || ub.Preds[k] == b) {
+								used = true
+							}
+						}
+						continue
+					}
+					if reach[ub] {
+						// a use in the If's own block only counts when that block is re-entered (loop)
+						used = true
+					}
+				}
+				if !used {
+					return "on the branch where it is non-nil the error is never used again (it is only returned or passed on where it is nil)"
+				}
+			}
+		}
+	}
+	return ""
+}
